@@ -155,6 +155,10 @@ class _Gen:
         base = ["sig", si] if whole else ["slice", ["sig", si], lo, hi]
         if self.sigs[si].get("late"):
             return base
+        if not whole and w > 0 and hi > lo and self.o.get("reinterpreted_slices", True) and r.random() < 0.1:
+            # a slice of the *reinterpreted* whole signal, of which this (module, domain) owns these bits only: the other bits belong
+            # to other drivers and are not touched
+            return ["slice", [r.choice(["as_signed", "as_unsigned"]), ["sig", si]], lo, hi]
         all_owned = [c for c in all_owned if not self.sigs[c[0]].get("late")]
         k = r.random()
         n = hi - lo
